@@ -89,9 +89,10 @@ HCIcnbit_init(accrec_t *access_rec)
     nbit_info = &(info->cinfo.coder_info.nbit_info);
 
     /* Initialize N-bit state information */
-    nbit_info->buf_pos = NBIT_BUF_SIZE; /* start at the beginning of the buffer */
-    nbit_info->nt_pos  = 0;             /* start at beginning of the NT info */
-    nbit_info->offset  = 0;             /* offset into the file */
+    nbit_info->buf_pos  = NBIT_BUF_SIZE; /* start at the beginning of the buffer */
+    nbit_info->buf_size = 0;             /* nothing expanded yet */
+    nbit_info->nt_pos   = 0;             /* start at beginning of the NT info */
+    nbit_info->offset   = 0;             /* offset into the file */
     memset(nbit_info->mask_buf, (nbit_info->fill_one == TRUE ? 0xff : 0), (size_t)nbit_info->nt_size);
 
     bits     = nbit_info->nt_size * 8; /* compute # of bits */
@@ -177,8 +178,7 @@ HCIcnbit_decode(compinfo_t *info, int32 length, uint8 *buf)
         sign_bit = 0;                    /* the sign bit from the n_bit data */
     nbit_mask_info_t *mask_info;         /* ptr to the mask info */
     int               copy_length;       /* number of bytes to copy */
-    int               buf_size,          /* size of the expansion buffer to use */
-        buf_items;                       /* number of items which will fit into expansion buffer */
+    int               buf_items;         /* number of items to expand into the buffer */
     uint8 *rbuf, *rbuf2;                 /* pointer into the n-bit read buffer */
     int    i, j;                         /* local counting variable */
 
@@ -190,12 +190,15 @@ HCIcnbit_decode(compinfo_t *info, int32 length, uint8 *buf)
     sign_byte     = nbit_info->nt_size - ((nbit_info->mask_off / 8) + 1);
     sign_mask     = mask_arr32[(nbit_info->mask_off % 8) + 1] ^ mask_arr32[nbit_info->mask_off % 8];
 
-    buf_size    = MIN(NBIT_BUF_SIZE, length);
-    buf_items   = buf_size / nbit_info->nt_size; /* compute # of items in buffer */
-    orig_length = length;                        /* save this for later */
-    while (length > 0) {                         /* decode until we have all the bytes */
-        if (nbit_info->buf_pos >= buf_size) {    /* re-fill buffer */
-            rbuf = (uint8 *)nbit_info->buffer;   /* get a ptr to the buffer */
+    orig_length = length;                               /* save this for later */
+    while (length > 0) {                                /* decode until we have all the bytes */
+        if (nbit_info->buf_pos >= nbit_info->buf_size) { /* re-fill buffer */
+            /* Expand only the whole items the rest of this request needs: the expanded
+             * bytes stay valid across calls (buf_size is kept with the buffer), and no
+             * item is taken from the bit stream without being delivered. */
+            buf_items           = (int)((MIN(NBIT_BUF_SIZE, length) + nbit_info->nt_size - 1) / nbit_info->nt_size);
+            nbit_info->buf_size = buf_items * nbit_info->nt_size;
+            rbuf = (uint8 *)nbit_info->buffer; /* get a ptr to the buffer */
 
             /* get initial copy of the mask */
             HDmemfill(rbuf, nbit_info->mask_buf, (uint32)nbit_info->nt_size, (uint32)buf_items);
@@ -249,8 +252,9 @@ HCIcnbit_decode(compinfo_t *info, int32 length, uint8 *buf)
             nbit_info->buf_pos = 0; /* reset buffer position */
         }
 
-        copy_length =
-            (int)((length > (buf_size - nbit_info->buf_pos)) ? (buf_size - nbit_info->buf_pos) : length);
+        copy_length = (int)((length > (nbit_info->buf_size - nbit_info->buf_pos))
+                                ? (nbit_info->buf_size - nbit_info->buf_pos)
+                                : length);
 
         memcpy(buf, &(nbit_info->buffer[nbit_info->buf_pos]), (size_t)copy_length);
 
@@ -458,9 +462,10 @@ HCPcnbit_seek(accrec_t *access_rec, int32 offset, int origin)
     if (Hbitseek(info->aid, bit_offset / 8, (int)(bit_offset % 8)) == FAIL)
         HRETURN_ERROR(DFE_CSEEK, FAIL);
 
-    nbit_info->buf_pos = NBIT_BUF_SIZE; /* force re-read if writing */
-    nbit_info->nt_pos  = 0;             /* start at the first byte of the mask */
-    nbit_info->offset  = offset;        /* set abs. offset into the file */
+    nbit_info->buf_pos  = NBIT_BUF_SIZE; /* force re-read if writing */
+    nbit_info->buf_size = 0;             /* nothing expanded yet */
+    nbit_info->nt_pos   = 0;             /* start at the first byte of the mask */
+    nbit_info->offset   = offset;        /* set abs. offset into the file */
 
     return SUCCEED;
 } /* HCPcnbit_seek() */
